@@ -194,5 +194,28 @@ def run(chk):
 
 
 def replay(d):
-    print("re-run ./check C07 (the violation is identified by the scenario in the replay file)")
+    common.use_repo_source()
+    import pydrex.core as core
+    if d.get("kind") != "property-violation":
+        print("replay file names a broken obligation; re-run the check itself")
+        return 1
+    sc = d.get("scenario", {})
+    if "pair" in sc:
+        sc["pair"] = tuple(sc["pair"])
+        with MT.Recorder() as rec:
+            h = c01.run_history(rec, sc)
+        null = sc.get("rate") == 0.0 or sc.get("regime") in (0, 7)
+        fails = null_history_fails(h, []) if null else list(h["fails"])
+        for k, m in fails:
+            print("still fails:", k, m)
+        return 1 if fails else 0
+    if {"regime", "phase", "fabric"} <= set(sc):
+        rng = np.random.default_rng(0)
+        c = G.case(rng, n_grains=2, pair=(sc["phase"], sc["fabric"]), regime=sc["regime"], okind="haar", lkind="general", fkind="dirichlet")
+        r = c03.impl(core, c)
+        exp = expected_dispatch(c)
+        bad = (exp == "error") != (r[0] == "ERR") or (r[0] == "ERR" and r[1] != "ValueError")
+        print("derivatives", sc, "->", r[0] if r[0] == "OK" else r[1], "; C07 requires", exp)
+        return 1 if bad else 0
+    print("re-run ./check C07")
     return 1
